@@ -1821,6 +1821,16 @@ class Tag(PageElement):
             interesting_string_types=self.interesting_string_types,
             namespaces=self._namespaces,
         )
+        # The copy holds exactly the attribute values of the original,
+        # in the same kind of dictionary (multi-valued attributes in
+        # new lists). The values were processed when they were set on
+        # the original; sending them through an HTMLAttributeDict or
+        # XMLAttributeDict again would turn 2 into "2" and drop None.
+        clone.attrs = self.attrs.__class__()
+        for key, value in self.attrs.items():
+            if isinstance(value, list):
+                value = value.__class__(value)
+            clone.attrs[key] = value
         for attr in ("can_be_empty_element", "hidden"):
             setattr(clone, attr, getattr(self, attr))
         return clone
